@@ -374,3 +374,6 @@ PROPS["C15"] = _C15
 
 from props_C07 import ENTRY as _C07
 PROPS["C07"] = _C07
+
+from props_C14 import ENTRY as _C14
+PROPS["C14"] = _C14
